@@ -30,6 +30,7 @@ import (
 	"sort"
 	"strconv"
 	"strings"
+	"sync"
 	"time"
 
 	"github.com/klauspost/compress/zstd"
@@ -46,6 +47,8 @@ type c01tLine struct {
 	payload []byte // the rest of the line
 	data    []byte // binary mode DATA: the n raw bytes after the line
 	bad     string
+	end     int // offset just behind the message in its direction
+	ev      int // index of the transport write that completed it (global order of recording)
 }
 
 var c01tTypRe = regexp.MustCompile(`^#([A-Za-z][A-Za-z0-9]{1,4}):`)
@@ -77,9 +80,29 @@ func c01tLines(wire []byte, binData bool) []c01tLine {
 				i += n
 			}
 		}
+		ln.end = i
 		out = append(out, ln)
 	}
 	return out
+}
+
+// one write of the transport as the harness saw it
+type c01tEvent struct{ dir, n int }
+
+// c01tStamp gives every line the index of the write that carried its last byte.  A message is
+// recorded before it is delivered to its reader, so whatever a peer writes in reaction to a
+// message has a larger index than that message.
+func c01tStamp(lines []c01tLine, dir int, events []c01tEvent) {
+	off, k := 0, 0
+	for i := range lines {
+		for k < len(events) && (events[k].dir != dir || off+events[k].n < lines[i].end) {
+			if events[k].dir == dir {
+				off += events[k].n
+			}
+			k++
+		}
+		lines[i].ev = k
+	}
 }
 
 // ---------------------------------------------------------------------------------------
@@ -105,6 +128,7 @@ type c01tMsg struct {
 	bin  []byte   // MD5 / SUCCD digest, DATA wire payload (frame chars or raw bytes)
 	strs []string // EXIT names
 	raw  string   // OTHER
+	ev   int      // recording index of the line
 }
 
 func c01tHexNames(names []string) string {
@@ -198,7 +222,17 @@ var (
 // c01tSender types the lines of the direction that carries the files.
 func c01tSender(lines []c01tLine, g *c01tCfg) ([]c01tMsg, string) {
 	var out []c01tMsg
+	stamped := 0
+	stamp := func(ev int) {
+		for ; stamped < len(out); stamped++ {
+			out[stamped].ev = ev
+		}
+	}
+	prev := 0
+	defer func() { stamp(prev) }()
 	for _, l := range lines {
+		stamp(prev) // what the previous line produced
+		prev = l.ev
 		if l.bad != "" {
 			return out, l.bad
 		}
@@ -298,7 +332,17 @@ func c01tReceiver(lines []c01tLine, g *c01tCfg, sender []c01tMsg) ([]c01tMsg, st
 	}
 	var out []c01tMsg
 	k := 0
+	stamped := 0
+	stamp := func(ev int) {
+		for ; stamped < len(out); stamped++ {
+			out[stamped].ev = ev
+		}
+	}
+	prev := 0
+	defer func() { stamp(prev) }()
 	for _, l := range lines {
+		stamp(prev)
+		prev = l.ev
 		switch l.typ {
 		case "ACT", "CFG":
 			continue
@@ -415,11 +459,11 @@ type c01tEntry struct {
 	srcPath string // the source on disk
 	content []byte
 	isDir   bool
-	reply   string  // the name the receiver answered
-	tsize   int64   // the size it answered (protocol >= 3)
-	hasSize bool    // SIZE seen
-	size    int64   // SIZE
-	comp    *bool   // COMP seen
+	reply   string   // the name the receiver answered
+	tsize   int64    // the size it answered (protocol >= 3)
+	hasSize bool     // SIZE seen
+	size    int64    // SIZE
+	comp    *bool    // COMP seen
 	frames  [][]byte // DATA payloads (finish flag excluded for protocol >= 2)
 	finish  bool
 	md5     []byte
@@ -650,8 +694,8 @@ type c01tViol struct{ key, what, detail string }
 type c01tCase struct {
 	cfg     e2eCfg
 	seed    int64
-	kind    int  // tree kind
-	preKind int  // 0 nothing, 1 unrelated only, 2 collision, 3 collision with name.0 taken too / non-empty (resume)
+	kind    int    // tree kind
+	preKind int    // 0 nothing, 1 unrelated only, 2 collision, 3 collision with name.0 taken too / non-empty (resume)
 	bigKind int    // content kind of the big file (tree kind 3): 1 zeros, 2 text-like, 0 incompressible
 	want    string // "", "archive", "resume": an unmodelled exchange provoked on purpose
 	desc    string
@@ -774,7 +818,19 @@ func (tc *c01tCase) run(work string, idx int) {
 		preTop[strings.Split(p.rel, "/")[0]] = true
 	}
 
+	// record the global order of the writes of both directions (nothing is re-chunked)
+	var evMu sync.Mutex
+	var events []c01tEvent
+	tc.cfg.hook = func(dir, idx int, b []byte) e2eAction {
+		evMu.Lock()
+		events = append(events, c01tEvent{dir, len(b)})
+		evMu.Unlock()
+		return e2eAction{}
+	}
 	res := runTransfer(tc.cfg, tops, dest)
+	evMu.Lock()
+	events = append([]c01tEvent(nil), events...)
+	evMu.Unlock()
 	if os.Getenv("C01T_DUMP") != "" {
 		fmt.Fprintf(os.Stderr, "==== %s\nC2S %q\nS2C %q\n", tc.desc, tailStr(string(res.wire[0]), 3000), tailStr(string(res.wire[1]), 3000))
 	}
@@ -803,12 +859,15 @@ func (tc *c01tCase) run(work string, idx int) {
 		tc.violate("transfer:parse", "the recorded wire could not be parsed", bad)
 		return
 	}
-	snd, bad := c01tSender(c01tLines(res.wire[sdir], g.Binary), g)
+	sLines, rLines := c01tLines(res.wire[sdir], g.Binary), c01tLines(res.wire[rdir], false)
+	c01tStamp(sLines, sdir, events)
+	c01tStamp(rLines, rdir, events)
+	snd, bad := c01tSender(sLines, g)
 	if bad != "" {
 		tc.violate("transfer:parse", "the recorded wire could not be parsed", "sender: "+bad)
 		return
 	}
-	rcv, bad := c01tReceiver(c01tLines(res.wire[rdir], false), g, snd)
+	rcv, bad := c01tReceiver(rLines, g, snd)
 	if bad != "" {
 		tc.violate("transfer:parse", "the recorded wire could not be parsed", "receiver: "+bad+" :: "+c01tJoin(snd)+" || "+c01tJoin(rcv))
 		return
@@ -1036,6 +1095,10 @@ func (tc *c01tCase) run(work string, idx int) {
 			for _, f := range e.frames {
 				sizes = append(sizes, int64(len(f)))
 			}
+			if c01tInts(e.acks, ".") != c01tInts(append(append([]int64(nil), sizes...), 0), ".") {
+				tc.violate("transfer:ack-length", "the acknowledged lengths are not the lengths of the frames sent",
+					fmt.Sprintf("%s: frames %v + finish flag, acks %v", e.srcPath, sizes, e.acks))
+			}
 			for _, s := range e.finals {
 				if s < size {
 					prefinal = append(prefinal, s)
@@ -1121,6 +1184,16 @@ func (tc *c01tCase) run(work string, idx int) {
 			c01tInts(sizes, "."), c01tB(profit), c01tInts(e.steps, "."), c01tInts(prefinal, ".")))
 	}
 
+	// ---- the two directions merged in the order of recording: the grammar of the exchange
+	tags, early := c01tMerged(g, snd, rcv)
+	if early != "" {
+		tc.violate("transfer:ack-early", "a frame was acknowledged before it was sent", early+" :: "+tags)
+	}
+	if q := c01tAccepts(g.pipeline(), tags); q != "QE" {
+		tc.violate("transfer:order", "the messages of a fault-free transfer were not exchanged in the order of the protocol grammar",
+			fmt.Sprintf("stopped in %s :: %s", q, tags))
+	}
+
 	// ---- the case line
 	up := "0"
 	cs, sc := c01tJoin(rcv), c01tJoin(snd)
@@ -1131,10 +1204,10 @@ func (tc *c01tCase) run(work string, idx int) {
 		sn, rn = exitNames, serverNames
 	}
 	tc.impl = fmt.Sprintf("S=1|R=1|SN=%s|RN=%s|NEW=%s|SHAPE=1|TREE=%s|C2S=%s|S2C=%s", c01tHexNames(sn), c01tHexNames(rn),
-		c01tHexNames(created), c01tListing(dest), cs, sc)
+		c01tHexNames(created), c01tListing(dest), cs, sc) + "|ORDER=1"
 	tc.args = []string{
 		fmt.Sprintf("%d:%s:%s:%s:%d:%s", g.Protocol, c01tB(g.Binary), c01tB(g.Directory), c01tB(g.Overwrite), g.Compress, up),
-		tableArg(g.pairs), hx([]byte("d")), c01tFsArg(pre), fmt.Sprint(c01tDflt), strings.Join(entArgs, ","),
+		tableArg(g.pairs), hx([]byte("d")), c01tFsArg(pre), fmt.Sprint(c01tDflt), strings.Join(entArgs, ","), tags,
 	}
 	tc.emit = true
 	for _, e := range es {
@@ -1143,6 +1216,145 @@ func (tc *c01tCase) run(work string, idx int) {
 			break
 		}
 	}
+}
+
+// c01tMerged: the tags of all messages in the order they were recorded, one letter each
+// (N num, M name, Z size, C comp, D data, F finish flag, A ack, 5 md5, X exit, S any other SUCC,
+// O other).  Protocol >= 2 acknowledges frames while later frames are still being sent (a
+// window); the model's composition sends all frames first.  The acks recorded before the
+// finish flag are moved behind it (their order is kept); an ack recorded before its frame is
+// reported.
+func c01tMerged(g *c01tCfg, snd, rcv []c01tMsg) (string, string) {
+	type tm struct {
+		ev, dir, idx int
+		tag          byte
+	}
+	var all []tm
+	tagOf := func(m c01tMsg) byte {
+		switch m.kind {
+		case "NUM":
+			return 'N'
+		case "NAME":
+			return 'M'
+		case "SIZE":
+			return 'Z'
+		case "COMP":
+			return 'C'
+		case "DATA":
+			if m.n == 0 && len(m.bin) == 0 {
+				return 'F'
+			}
+			return 'D'
+		case "MD5":
+			return '5'
+		case "EXIT":
+			return 'X'
+		case "ACK":
+			return 'A'
+		case "SUCCI", "SUCCN", "SUCCT", "SUCCD":
+			return 'S'
+		}
+		return 'O'
+	}
+	for i, m := range snd {
+		all = append(all, tm{m.ev, 0, i, tagOf(m)})
+	}
+	for i, m := range rcv {
+		all = append(all, tm{m.ev, 1, i, tagOf(m)})
+	}
+	sort.SliceStable(all, func(i, j int) bool {
+		if all[i].ev != all[j].ev {
+			return all[i].ev < all[j].ev
+		}
+		return all[i].dir == all[j].dir && all[i].idx < all[j].idx
+	})
+	var out []byte
+	early := ""
+	held, sent, acked, inData := 0, 0, 0, false
+	for _, t := range all {
+		switch t.tag {
+		case 'Z':
+			inData, sent, acked = true, 0, 0
+			out = append(out, 'Z')
+		case 'D', 'F':
+			sent++
+			out = append(out, t.tag)
+			if t.tag == 'F' && g.pipeline() {
+				inData = false
+				for ; held > 0; held-- {
+					out = append(out, 'A')
+				}
+			}
+		case 'A':
+			acked++
+			if acked > sent && early == "" {
+				early = fmt.Sprintf("ack %d recorded when %d frames had been sent", acked, sent)
+			}
+			if inData {
+				held++
+			} else {
+				out = append(out, 'A')
+			}
+		default:
+			out = append(out, t.tag)
+		}
+	}
+	return string(out), early
+}
+
+// c01tAccepts: the automaton tr_delta of Model/Transfer.v (the model evaluates the same tags
+// with the extracted one); returns the state it stopped in, QE = accepted
+func c01tAccepts(pipe bool, tags string) string {
+	q := "Q0"
+	for i := 0; i < len(tags); i++ {
+		t := tags[i]
+		next := ""
+		switch {
+		case q == "Q0" && t == 'N':
+			next = "Q1"
+		case q == "Q1" && t == 'S':
+			next = "Q2"
+		case (q == "Q2" || q == "Q4") && t == 'M':
+			next = "Q3"
+		case (q == "Q2" || q == "Q4") && t == 'X':
+			next = "QE"
+		case q == "Q3" && t == 'S':
+			next = "Q4"
+		case q == "Q4" && t == 'Z':
+			next = "Q5"
+		case q == "Q5" && t == 'S':
+			next = "Q6"
+		case q == "Q6" && t == 'C' && pipe:
+			next = "Q7"
+		case q == "Q6" && t == 'D':
+			next = map[bool]string{true: "Q7", false: "Q11"}[pipe]
+		case q == "Q6" && t == 'F' && pipe:
+			next = "Q8"
+		case q == "Q6" && t == '5' && !pipe:
+			next = "Q10"
+		case q == "Q7" && t == 'D':
+			next = "Q7"
+		case q == "Q7" && t == 'F':
+			next = "Q8"
+		case q == "Q8" && t == 'A':
+			next = "Q8"
+		case q == "Q8" && t == 'S':
+			next = "Q9"
+		case q == "Q9" && t == 'S':
+			next = "Q9"
+		case q == "Q9" && t == '5':
+			next = "Q10"
+		case q == "Q10" && t == 'S':
+			next = "Q2"
+		case q == "Q11" && t == 'S':
+			next = "Q6"
+		}
+		if next == "" {
+			return fmt.Sprintf("%s at %d (%c)", q, i, t)
+		}
+		q = next
+	}
+	return q
 }
 
 func c01tReadAll(r interface{ Read([]byte) (int, error) }) ([]byte, error) {
@@ -1218,8 +1430,9 @@ func genTransferTie(c *ctx) {
 			tc.kind = 1 + c.rng.Intn(2)
 			if tc.cfg.proto == 4 && !tc.cfg.overwrite {
 				// a directory with children is sent as an archive stream (not modelled): keep a few
-				if tc.kind == 2 && nArchive < c.pick(3, 12) {
+				if nArchive < c.pick(2, 12) {
 					nArchive++
+					tc.kind = 2
 					tc.want = "archive"
 				} else {
 					tc.kind = 1
